@@ -42,6 +42,22 @@ if rnd >= 5:
             "depends on iteration order of dicts/sets, on hash values or on object identity.\n"
             "While reading the code: if you notice a place where the UNCHANGED code already seems to violate the property (a latent bug), do "
             "not use it as your mutation, but describe it at the end of your final answer under 'pre-existing' with a 5-line reproduction.\n")
+if rnd >= 6:
+    emph = ("\n\nThis is a sixth round: five rounds of changes (listed above) have been tried.  Do NOT touch the module-level caches of "
+            "odc/geo/crs.py.  Read the property text clause by clause and the list above, and aim at what is still untouched.  Prefer: "
+            "(i) 'performance' edits - an early exit, a cached intermediate, a vectorised loop, a cheaper approximate test in front of the "
+            "exact one - that are exact for typical inputs and wrong for a special class; (ii) edits where two clauses of the property "
+            "interact (an option that is handled in one branch and forgotten in its sibling branch; a fix applied to the DataArray path "
+            "but not the Dataset path, to the numpy path but not the dask path, to x but not y); (iii) the exception TYPE or the moment an "
+            "error is raised where the property demands a refusal (a ValueError that becomes a different exception class, a check that "
+            "moves behind a lazy generator / dask graph so that it only fires at compute time); (iv) default values of keyword arguments "
+            "and their propagation through wrappers and accessors; (v) sign conventions (negative resolution, south-up / mirrored grids, "
+            "descending coordinates) in code paths that were so far only mutated for north-up grids; (vi) integer / float / numpy-scalar "
+            "type of a RESULT (a Python int becoming numpy.int64, a tuple becoming a list, a slice with numpy members) where the "
+            "property or a documented contract pins it.\n"
+            "While reading the code: if you notice a place where the UNCHANGED code already seems to violate the property (a latent bug), do "
+            "not use it as your mutation, but describe it at the end of your final answer under 'pre-existing' with a 5-line reproduction "
+            "(check the list above first: several latent bugs were already reported and repaired).\n")
 avoid = ""
 if known:
     avoid = ("\n\nThe following changes were already tried by someone else — do NOT repeat them or close variants; look in different functions, "
